@@ -28,10 +28,11 @@ type Case struct {
 
 // pending model query
 type pend struct {
-	line string
-	impl string
-	cas  Case
-	note string
+	line  string
+	impl  string
+	cas   Case
+	note  string
+	canon bool // the model answer carries float lexemes: compare the float64 they denote
 }
 
 type runner struct {
@@ -42,11 +43,19 @@ type runner struct {
 	only string // replay: restrict nothing, just one case
 }
 
-func (r *runner) ask(line, impl string, cas Case, note string) {
+func (r *runner) ask(line, impl string, cas Case, note string) { r.askx(line, impl, cas, note, false) }
+
+// askCanon: like ask; float lexemes in the model's answer are replaced by the canonical
+// spelling of the float64 they denote (strconv.ParseFloat, trusted) before comparing.
+func (r *runner) askCanon(line, impl string, cas Case, note string) {
+	r.askx(line, impl, cas, note, true)
+}
+
+func (r *runner) askx(line, impl string, cas Case, note string, canon bool) {
 	if r.m == nil {
 		return
 	}
-	r.q = append(r.q, pend{line, impl, cas, note})
+	r.q = append(r.q, pend{line, impl, cas, note, canon})
 	if len(r.q) >= 8192 {
 		r.flush()
 	}
@@ -70,6 +79,9 @@ func (r *runner) flush() {
 		return
 	}
 	for i, p := range r.q {
+		if i < len(res) && p.canon {
+			res[i] = canonModelFloats(res[i])
+		}
 		if i < len(res) && res[i] != p.impl {
 			r.c.Mismatch(p.cas, clip(p.impl), clip(res[i]), p.note+" ["+clip(p.line)+"]")
 		}
